@@ -23,6 +23,14 @@ import os
 import common
 
 ALPHABET = [47, 42, 10, 97, 34, 233]
+# second exhaustive alphabet: scalars of every UTF-8 length, control characters and
+# code points that editors/tools sometimes treat specially (BOM), next to the
+# comment characters — so that a special case for ONE scalar (possibly only at a
+# particular offset) cannot hide
+ALPHABET2 = [47, 42, 10, 13, 9, 0, 97, 233, 0xFEFF, 0x1F600]
+# "interesting" code points for the random texts
+INTERESTING = [0xFEFF, 0x200B, 0xA0, 0x2028, 0x2029, 13, 9, 12, 0, 0x1F600, 0x10FFFF, 0xFFFD, 0x85,
+               47, 42, 34, 39, 92, 35, 0x7F, 0x80, 0x7FF, 0x800, 0xFFFF, 0x10000]
 WIDE = [47, 42, 10, 13, 32, 9, 97, 34, 39, 92, 233, 0x20AC, 0x1F600, 0x7F, 0x80, 0x7FF, 0x800, 0xFFFF, 0x10000]
 
 # comment shapes (DESIGN Appendix C and the property text); "block" shapes are
@@ -54,19 +62,21 @@ def split_res(out_line):
     return head, res
 
 
-def sweep(ctx, harness, model, maxlen):
+def sweep(ctx, harness, model, maxlen, alphabet=None):
     """Exhaustive comparison by digests; returns (evaluations, nontrivial,
     errs, disagreements, failing)."""
     chunks = []
+    K = len(alphabet) if alphabet else 6
+    extra = [",".join(str(c) for c in alphabet)] if alphabet else []
     for L in range(0, maxlen + 1):
-        for P in range(1 if L == 0 else 6 if L == 1 else 36):
+        for P in range(1 if L == 0 else K if L == 1 else K * K):
             chunks.append((L, P))
 
     def one(ch):
         L, P = ch
-        a = common.sh([harness, "sweep", str(L), str(P), "digest"], timeout=900)
-        b = common.sh([model, "sweep", "mirror", str(L), str(P), "digest"], timeout=900)
-        c = common.sh([model, "sweep", "spec", str(L), str(P), "digest"], timeout=900)
+        a = common.sh([harness, "sweep", str(L), str(P), "digest"] + extra, timeout=900)
+        b = common.sh([model, "sweep", "mirror", str(L), str(P), "digest"] + extra, timeout=900)
+        c = common.sh([model, "sweep", "spec", str(L), str(P), "digest"] + extra, timeout=900)
         for rc, out, err in (a, b, c):
             if rc != 0 or not out.startswith("digest"):
                 raise common.BuildError("preprocess sweep %s failed" % (ch,), (out + err)[-2000:])
@@ -87,7 +97,7 @@ def sweep(ctx, harness, model, maxlen):
         outs = []
         for cmd in ([harness, "sweep", str(L), str(P), "full"], [model, "sweep", "mirror", str(L), str(P), "full"],
                     [model, "sweep", "spec", str(L), str(P), "full"]):
-            rc, out, err = common.sh(cmd, timeout=900)
+            rc, out, err = common.sh(cmd + extra, timeout=900)
             outs.append(out.splitlines())
         for li, lm, ls in zip(*outs):
             head, ri = split_res(li)
@@ -95,7 +105,9 @@ def sweep(ctx, harness, model, maxlen):
             if ri != rm and len(disagreements) < 20:
                 disagreements.append({"case": head, "impl": ri, "model": rm})
             if ri != rs and len(failing) < 20:
-                failing.append({"case": head, "impl": ri, "spec": rs})
+                why = py_checks(text_of(head), ri)
+                failing.append({"case": head, "impl": ri, "spec": rs + ((" [position clause: %s]" % why) if why else ""),
+                                "text": text_of(head)})
     if bad and not disagreements and not failing:
         disagreements.append({"case": "digest mismatch in chunks %s but the verbose re-run agrees" % bad[:6], "impl": "?", "model": "?"})
     return evaluations, nontrivial, errs, disagreements, failing, len(bad)
@@ -133,7 +145,25 @@ def random_texts(ctx, n):
         else:                  # random scalars, biased to / and *
             k = rng.randrange(0, 30)
             texts.append("".join(chr(rng.choice(WIDE[:3] * 4 + WIDE)) for _ in range(k)))
-    return texts
+    # interesting code points: sprinkled anywhere with some probability, and
+    # forced at the first and / or the last offset in a share of the texts
+    out = []
+    for t in texts:
+        r = rng.random()
+        if r < 0.3:
+            cs = list(t)
+            for _ in range(rng.randrange(1, 4)):
+                cs.insert(rng.randrange(0, len(cs) + 1), chr(rng.choice(INTERESTING)))
+            t = "".join(cs)
+        r = rng.random()
+        if r < 0.15:
+            t = chr(rng.choice(INTERESTING)) + t
+        elif r < 0.30:
+            t = t + chr(rng.choice(INTERESTING))
+        elif r < 0.40:
+            t = chr(rng.choice(INTERESTING)) + t + chr(rng.choice(INTERESTING))
+        out.append(t)
+    return out
 
 
 def py_checks(text, res):
@@ -443,6 +473,12 @@ def run(ctx, proofs):
     ev_sweep, nontrivial_sweep, errs_sweep, dis, fail, badchunks = sweep(ctx, harness, model, maxlen)
     disagreements += dis
     failing += fail
+    # (a') second exhaustive sweep: wider alphabet, shorter strings
+    maxlen2 = 6 if quick else 7
+    ev_sweep2, nontrivial_sweep2, errs_sweep2, dis2, fail2, badchunks2 = sweep(ctx, harness, model, maxlen2, ALPHABET2)
+    disagreements += dis2
+    failing += fail2
+    badchunks += badchunks2
 
     # (c) seeded random longer texts
     texts = [t for t in random_texts(ctx, 20000 if quick else 200000) if not has_surrogate(t)]
@@ -515,11 +551,19 @@ def run(ctx, proofs):
                           {"broken": "props/C05.v", "failures": proofs["failures"]}, no_input=True)
 
     ctx.coverage.update({
-        "evaluations": ev_sweep + len(lines) + len(clines),
-        "distinct_nontrivial": nontrivial_sweep + len(rnd_nontrivial),
+        "evaluations": ev_sweep + ev_sweep2 + len(lines) + len(clines),
+        "distinct_nontrivial": nontrivial_sweep + nontrivial_sweep2 + len(rnd_nontrivial),
+        "exhaustive_part_wide": "all %d strings of length <= %d over the 10 scalars %s (1-, 2-, 3- and 4-byte scalars, NUL, TAB, CR, "
+                                "BOM next to the comment characters); %d of them contain a comment, %d end inside a block comment"
+                                % (ev_sweep2, maxlen2, ["U+%04X" % c for c in ALPHABET2], nontrivial_sweep2, errs_sweep2),
+        "interesting_code_points": ["U+%04X" % c for c in INTERESTING],
+        "random_texts_with_interesting_first_or_last": sum(1 for t in texts if t and (ord(t[0]) in INTERESTING or ord(t[-1]) in INTERESTING)),
         "rule": "stripper: every string of length <= %d over the 6 symbols / * newline a double-quote e-acute (exhaustive, "
                 "both sides enumerate, per-chunk digests of the full result lines), plus %d seeded random texts (token streams "
-                "with comment shapes %s between tokens, glued shapes, random scalars incl. 3- and 4-byte ones) and the corpus; "
+                "with comment shapes %s between tokens, glued shapes, random scalars incl. 3- and 4-byte ones; "
+                "30 %% of the texts get 1-3 'interesting' code points (BOM, ZWSP, NBSP, U+2028/9, CR, TAB, FF, NUL, 4-byte scalars, "
+                "ASCII punctuation) at random places and 40 %% get one forced at the first and/or last offset) and the corpus; a second "
+                "exhaustive sweep over 10 scalars of every UTF-8 length (see exhaustive_part_wide); "
                 "an input is nontrivial when the stripper's answer is an error or differs from its input (i.e. it contains a "
                 "comment); counted per distinct input" % (maxlen, len(lines), BLOCK_SHAPES + MULTILINE_SHAPES + LINE_SHAPES),
         "exhaustive": True,
